@@ -16,7 +16,7 @@ trap 'rm -rf "$SCR"' EXIT
 if grep -n "\.Range(" "$SCR/src/lintcmd/runner/"*.go "$SCR/src/lintcmd/cache/cache.go" "$SCR/src/internal/renameio/"*.go "$SCR/src/go/ir/"*.go 2>/dev/null | grep -v _test; then echo "sync.Map.Range in instrumented code"; exit 1; fi
 mkdir -p "$SCR/tmp" "$SCR/out"
 FAIL=0
-for spec in "cachesim:" "cachesim:-family=enum" "irsim:" "runsim:" "histsim:" "cachesim2:"; do
+for spec in ${DET_ENGINES:-cachesim: cachesim:-family=enum irsim: runsim: histsim: cachesim2:}; do
   e="${spec%%:*}"; extra="${spec#*:}"
   (cd "$SCR/src" && go build -trimpath -o "$SCR/$e" "./internal/verifharness/$e") || exit 2
   n=$N; p=$P
@@ -36,7 +36,7 @@ for spec in "cachesim:" "cachesim:-family=enum" "irsim:" "runsim:" "histsim:" "c
   lines=$(wc -l < "$ref")
   bad=0
   for i in $(seq 2 $p); do
-    if ! cmp -s "$ref" "$SCR/out/$tag.$i"; then bad=$((bad+1)); diff "$ref" "$SCR/out/$tag.$i" | head -5; fi
+    if ! cmp -s "$ref" "$SCR/out/$tag.$i"; then bad=$((bad+1)); diff "$ref" "$SCR/out/$tag.$i" | head -5; echo "--- stderr of process $i:"; tail -5 "$SCR/out/$tag.$i.err"; fi
   done
   echo "determinism $tag: $lines cases x $p processes (GOMAXPROCS 1/4/16, both gate kinds): $bad differing" | tee -a "${DET_SUMMARY:-/dev/null}"
   [ $bad -ne 0 ] && FAIL=1
